@@ -156,6 +156,21 @@ def run_property(pid, tier, seed, only_units=None, quiet=False):
         for f in futs:
             results.append(f.result())
 
+    # ------------------------------------------------------------ vacuity, per unit:
+    # every line / canary of the extracted bodies must be reachable in at least one variant
+    for u in units:
+        rs = [r for r in results if r.unit is u and r.cover and 'unreached' in r.cover and not r.error]
+        if not rs:
+            continue
+        dead = set(rs[0].cover['unreached'])
+        for r in rs[1:]:
+            dead &= set(r.cover['unreached'])
+        if dead:
+            txt = {}
+            for r in rs:
+                txt.update(r.cover.get('unreached_text', {}))
+            errors.append('%s: vacuity: unreachable under the contract in every variant: %s'
+                          % (u.name, '; '.join('%s %s' % (d, txt.get(d, '')) for d in sorted(dead, key=str)[:6])))
     # ------------------------------------------------------------ decide
     safety_only = meta.get('safety_only', False)
     viol = []
